@@ -211,7 +211,10 @@ class C10(Prop):
                 r.rejected = "a Runge-Kutta stage vanishes exactly (DESIGN §3.4)"
                 return
         adaptive = bool(case.get("adaptive")) and s["kind"] in ("pc_taylor", "pc_tdrk")
-        cfg = evo.make_evolve_config(s, adaptive=adaptive, guess_dt=-0.1j if s["fam"] != "cmf" or True else None, adaptive_rtol=1e-6)
+        # adaptive runs start from first guesses that are too small as well as far too large (rejected sub-steps must be retried
+        # from the last accepted state)
+        g0 = [0.1, 1.0, 5.0, 20.0][case["rng"] % 4] if adaptive else 0.1
+        cfg = evo.make_evolve_config(s, adaptive=adaptive, guess_dt=-1j * g0, adaptive_rtol=1e-6)
         before = chain.dense_of(mps)
         nstep = case["nstep"] if mode == "imag" else 1
         cur = mps
